@@ -10,6 +10,7 @@ matches() gives - solve *is* what matches() calls), `as_mapping()` follows
   * otherwise Err(Validation) whose message names exactly the failing examples.
 """
 import re
+import json
 import z3
 from common import *
 from mirsym.models_std import MODELS, some, none, deref_all, model as std_model
@@ -29,6 +30,13 @@ def install_models(state):
         if ex.branch(state['is_mapping'][i]):
             return some(Ref(Cont([Opaque('mapping', {'i': i})]), 0))
         return none()
+
+    @front(r'^serde_yaml::Value::is_mapping$')
+    def m_is_mapping(ex, callee, args):
+        y = deref_all(args[0])
+        if not (isinstance(y, Opaque) and y.kind == 'yaml'):
+            raise Unsupported('is_mapping of something that is not an example')
+        return state['is_mapping'][y.data['i']]
 
     @front(r'^serde_yaml::Mapping::(is_empty|len)$')
     def m_mapping_is_empty(ex, callee, args):
@@ -183,12 +191,93 @@ def main():
     ck.assumptions = ['solver::solve on an example is an arbitrary boolean per example (its meaning is the subject of C02); it is the function matches() calls',
                       'format!/Debug of an example renders something that identifies the example; Error::with keeps the message']
     ck.functions |= {'rule::Rule::validate'}
-    units = [(p, n) for p in range(K + 1) for n in range(K + 1)]
+    units = [(p, n) for p in range(K + 1) for n in range(K + 1)] + [('shapes',)]
     ck.run_units(units, run_unit, jobs=8)
     ck.finish('Rule::validate MIR over symbolic example states; z3 against the specification of validate()')
 
 
+SHAPES = {
+    'plain-hit': '{f: a, g: b}', 'plain-miss': '{f: b, g: b}', 'plain-missing': '{g: b}', 'empty': '{}',
+    'tagged-hit': '!sysmon {f: a, g: b}', 'tagged-miss': '!sysmon {f: zz, g: b}',
+    'merge-hit': '{<<: {f: a}, g: b}', 'merge-miss': '{<<: {f: a, g: b}}', 'merge-plain-hit': '{<<: {x: y}, f: a, g: b}',
+    'nested-hit': '{f: a, g: b, h: {k: [1, 2]}}', 'string': "'just a string'", 'number': '17', 'list': '[f, a]', 'null': '~',
+    'key-bool': '{f: a, g: b, true: x}', 'long': '{f: a, g: b, pad: "%s"}' % ('\u00e9' * 300),
+}
+
+
+def shapes_unit(ck):
+    """*concrete* (labelled): example documents in shapes the symbolic example state cannot tell apart (tagged mappings,
+    merge keys, odd keys, non-mappings), in several orders: validate() must say what matches() says about each example
+    that is a mapping, must report every other entry, and must name exactly the failing examples"""
+    import itertools
+    br = ck.bridge()
+    names = list(SHAPES)
+    lists = [(a, b) for a in names for b in names if a != b][::3] + [(a,) for a in names]
+    triples = [('string', 'plain-hit', 'plain-miss'), ('plain-miss', 'number', 'plain-hit'), ('tagged-hit', 'plain-miss', 'merge-hit'),
+               ('plain-hit', 'tagged-miss', 'list'), ('merge-miss', 'merge-plain-hit', 'null')]
+    n = 0
+    for opts in (None, [True, True, True, True]):
+        for side in ('tp', 'tn'):
+            for combo in lists + triples:
+                items = ''.join('\n- %s' % SHAPES[x].replace('}', ', id: %d}' % (4000 + i)) if SHAPES[x].endswith('}') and not SHAPES[x].endswith('{}')
+                                else '\n- %s' % SHAPES[x] for i, x in enumerate(combo))
+                yaml = 'detection:\n  A:\n    f: a\n  B:\n    g: b\n  condition: A and B\ntrue_positives:%s\ntrue_negatives:%s\n' % (
+                    items if side == 'tp' else ' []', items if side == 'tn' else ' []')
+                ex = br.call(cmd='examples', yaml=yaml, opts=opts)
+                va = br.call(cmd='validate', yaml=yaml, opts=opts)
+                n += 1
+                ck.obligations += 1
+                if not ex.get('ok'):
+                    ck.discharged += 1          # the rule does not load in this shape: nothing to validate
+                    continue
+                what = None
+                if 'panic' in va or 'panic' in ex:
+                    what = 'panic: %s' % (va.get('panic') or ex.get('panic'))[:160]
+                else:
+                    verdicts = {}                 # marker -> matches() verdict, for the entries that are mappings
+                    for e in ex['examples']:
+                        verdicts[json.dumps(e['doc'], sort_keys=True)] = e['verdict']
+                    mapping_count = len(ex['examples'])
+                    fails = []
+                    for i, x in enumerate(combo):
+                        is_map = x not in ('string', 'number', 'list', 'null')
+                        fails.append(None if not is_map else i)
+                    vlist = [e['verdict'] for e in ex['examples']]
+                    bad_entries = len(combo) - mapping_count
+                    wrong = [v for v in vlist if v != (side == 'tp')]
+                    want_ok = bad_entries == 0 and not wrong
+                    got_ok = va.get('result') is True
+                    if want_ok != got_ok:
+                        what = 'validate() says %r, matches() on the examples says %s (non-mapping entries: %d)' % (
+                            {k: va.get(k) for k in ('result', 'error')}, vlist, bad_entries)
+                    elif not want_ok:
+                        text = va.get('error', '')
+                        maps = [i for i, x in enumerate(combo) if x not in ('string', 'number', 'list', 'null')]
+                        if len(maps) == len(vlist):
+                            for i, v in zip(maps, vlist):
+                                marker = str(4000 + i)
+                                if SHAPES[combo[i]].endswith('{}'):
+                                    continue
+                                failing = v != (side == 'tp')
+                                if failing and marker not in text:
+                                    what = 'the validation error does not name failing example %d: %r' % (i, text[:160])
+                                if not failing and marker in text:
+                                    what = 'the validation error names example %d which does not fail: %r' % (i, text[:160])
+                if what:
+                    path = ck.write_replay('shapes_%s_%s_%s' % (side, '_'.join(combo), 'opt' if opts else 'raw'),
+                                           {'rule': yaml, 'opts': opts, 'examples': ex, 'validate': va, 'what': what,
+                                            'request': {'cmd': 'validate', 'yaml': yaml, 'opts': opts}})
+                    ck.violations.append((path, 'shapes %s %s: %s' % (side, '+'.join(combo), what)))
+                    ck.replays_ok += 1
+                    return
+                ck.discharged += 1
+    ck.extra['example_shape_rules'] = n
+
+
 def run_unit(ck, unit):
+    if unit == ('shapes',):
+        shapes_unit(ck)
+        return
     p, n = unit
     prog = ck.program()
     uni = engine.Universe()
